@@ -1,7 +1,7 @@
 (** Adj-RIB and version-counter bookkeeping of yabgp/core/protocol.py:
       BGP.__init__ (tables and counters), init_rib, update_rib_in_ipv4, update_rib_out_ipv4,
       update_receive_verion, update_send_version, the part of _update_received that calls them,
-      connectionMade / connectionLost (flush).
+      connectionMade / closeConnection / connectionLost (flush; the `disconnected` flag).
     Transcribes what the code does.  No proofs here.
 
     Representation
@@ -288,10 +288,40 @@ Definition recv_step (rib_on : bool) (s : rib) (u : update) : rib :=
 Definition send_step (s : rib) (u : update) : rib :=
   update_send_version (update_rib_out_ipv4 s u) (u_attr u).
 
-(** connectionLost on the object; a new connection gets a NEW BGP object (buildProtocol ->
-    __init__) whose connectionMade runs init_rib *)
-Definition conn_lost (s : rib) : rib := init_rib s.
+(** a new connection gets a NEW BGP object (buildProtocol -> __init__) whose connectionMade
+    runs init_rib *)
 Definition new_conn : rib := init_rib rib0.
+
+(** ---------------------------------------------------------------------------------
+    the end of a session.  One BGP protocol object = its tables/counters and the
+    `disconnected` flag (False in __init__), which says WHO closes the connection:
+
+    - the peer / the network drops it: Twisted calls connectionLost with the flag still False;
+    - yabgp closes it itself: FSM._close_connection -> BGP.closeConnection (header error ->
+      NOTIFICATION -> _error_close, hold timer expiry, manual stop, a NOTIFICATION from the
+      peer ...) sets the flag and asks the transport to close; Twisted then calls
+      connectionLost with the flag True. *)
+Record conn := mkConn { c_rib : rib; c_disconnected : bool }.
+
+Definition on_rib (f : rib -> rib) (c : conn) : conn := mkConn (f (c_rib c)) (c_disconnected c).
+
+Definition new_connection : conn := mkConn new_conn false.
+
+(** closeConnection: `if self.transport.connected: self.transport.loseConnection();
+    self.disconnected = True` (the transport is connected in every history: the method is
+    reached from a live session).  Nothing is flushed here. *)
+Definition close_connection (c : conn) : conn := mkConn (c_rib c) true.
+
+(** connectionLost: `self.init_rib()` comes FIRST, before the test of the flag;
+    then handler.on_connection_lost, then
+      if self.disconnected: self.factory.connection_closed(self); return
+      ... self.fsm.connection_failed()
+    (both continuations only touch the FSM / the factory, not the tables). *)
+Definition connection_lost (c : conn) : conn :=
+  let c1 := on_rib init_rib c in                    (* self.init_rib() *)
+  if c_disconnected c1
+  then c1                                           (* we closed it: connection_closed; return *)
+  else c1.                                          (* the peer did: fsm.connection_failed() *)
 
 (** ---------------------------------------------------------------------------------
     rendering for the correspondence check *)
@@ -311,25 +341,35 @@ Definition sx_rib (s : rib) : sx :=
       sx_rtable (fs_send s); sx_rtable (fs_recv s); sx_rtable (sr_send s); sx_rtable (sr_recv s);
       sx_rtable (vpn_send s); sx_rtable (vpn_recv s)].
 
+(** the protocol object: the ten tables/counters and the flag *)
+Definition sx_conn (c : conn) : sx :=
+  match sx_rib (c_rib c) with
+  | SL l => SL (l ++ [sx_bool (c_disconnected c)])
+  | x => x
+  end.
+
 Inductive event :=
 | ERecv (u : update)          (* an UPDATE from the peer, through dataReceived *)
 | ESend (u : update)          (* POST /v1/peer/<ip>/send/update, or the two protocol calls *)
-| ELost                       (* connectionLost: the state of the old object afterwards *)
+| EClose                      (* yabgp closes the session itself: closeConnection *)
+| ELost                       (* connectionLost (after EClose: local close; without: the peer
+                                 dropped it): the state of the old object afterwards *)
 | ENew.                       (* the next connection is established: the new object *)
 
-Definition ev_step (rib_on : bool) (s : rib) (e : event) : rib :=
+Definition ev_step (rib_on : bool) (c : conn) (e : event) : conn :=
   match e with
-  | ERecv u => recv_step rib_on s u
-  | ESend u => send_step s u
-  | ELost => conn_lost s
-  | ENew => new_conn
+  | ERecv u => on_rib (fun s => recv_step rib_on s u) c
+  | ESend u => on_rib (fun s => send_step s u) c
+  | EClose => close_connection c
+  | ELost => connection_lost c
+  | ENew => new_connection
   end.
 
 (** the state after every event *)
-Fixpoint trace (rib_on : bool) (s : rib) (es : list event) : list rib :=
+Fixpoint trace (rib_on : bool) (c : conn) (es : list event) : list conn :=
   match es with
   | [] => []
-  | e :: r => let s' := ev_step rib_on s e in s' :: trace rib_on s' r
+  | e :: r => let c' := ev_step rib_on c e in c' :: trace rib_on c' r
   end.
 Definition trace_sx (rib_on : bool) (es : list event) : sx :=
-  SL (map sx_rib (trace rib_on new_conn es)).
+  SL (map sx_conn (trace rib_on new_connection es)).
